@@ -735,7 +735,7 @@ pub fn replay(path: &str) -> i32 {
             return 2;
         }
     };
-    let doc: serde_json::Value = match serde_json::from_str(&text) {
+    let doc: serde_json::Value = match crate::spec::from_json_unbounded(&text) {
         Ok(d) => d,
         Err(e) => {
             eprintln!("HARNESS-ERROR {}: {}", path, e);
